@@ -102,18 +102,23 @@ Push(ev, x) == IF EvLimit > 0 /\ Len(ev.q) >= EvLimit THEN [ev EXCEPT !.q = Appe
                                                       ELSE [ev EXCEPT !.q = Append(@, x)]
 SeqSet(q) == {q[i] : i \in 1..Len(q)}
 
+(* the initial values as one record: Init below, and the reset between two scenarios of Trace_SpanEndImpl.tla *)
+I0 == [mu |-> "none", endTime |-> "none", parts |-> {}, childCount |-> 0,
+       pc |-> [x \in Procs |-> "idle"],
+       esnap |-> [e \in Enders |-> NoSnap], eprocs |-> [e \in Enders |-> <<>>],
+       rval |-> [r \in Readers |-> FALSE], plist |-> Processors, win |-> {}, winOverlap |-> FALSE,
+       evs |-> [q |-> EvInit, drop |-> 0, datt |-> 0], prov |-> [mu |-> "none", down |-> FALSE],
+       mon |-> [endCalled |-> FALSE, endOpen |-> 0, endRet |-> FALSE,
+                called |-> {}, mustIn |-> {}, mustOut |-> {},
+                childMustIn |-> 0, childEligible |-> 0, rAfter |-> {},
+                must |-> ProcSet,     \* processors whose registration returned before any End call
+                sd |-> FALSE,         \* some TracerProvider.Shutdown call has begun (delivery is C15's subject from then on)
+                onEnd |-> [p \in ProcSet \cup LateSet |-> 0], ets |-> {}, views |-> {}, taskEnds |-> 0, bad |-> {}]]
 Init ==
-  /\ mu = "none" /\ endTime = "none" /\ parts = {} /\ childCount = 0
-  /\ pc = [x \in Procs |-> "idle"]
-  /\ esnap = [e \in Enders |-> NoSnap] /\ eprocs = [e \in Enders |-> <<>>]
-  /\ rval = [r \in Readers |-> FALSE] /\ plist = Processors /\ win = {} /\ winOverlap = FALSE
-  /\ evs = [q |-> EvInit, drop |-> 0, datt |-> 0] /\ prov = [mu |-> "none", down |-> FALSE]
-  /\ mon = [endCalled |-> FALSE, endOpen |-> 0, endRet |-> FALSE,
-            called |-> {}, mustIn |-> {}, mustOut |-> {},
-            childMustIn |-> 0, childEligible |-> 0, rAfter |-> {},
-            must |-> ProcSet,     \* processors whose registration returned before any End call
-            sd |-> FALSE,         \* some TracerProvider.Shutdown call has begun (delivery is C15's subject from then on)
-            onEnd |-> [p \in ProcSet \cup LateSet |-> 0], ets |-> {}, views |-> {}, taskEnds |-> 0, bad |-> {}]
+  /\ mu = I0.mu /\ endTime = I0.endTime /\ parts = I0.parts /\ childCount = I0.childCount
+  /\ pc = I0.pc /\ esnap = I0.esnap /\ eprocs = I0.eprocs
+  /\ rval = I0.rval /\ plist = I0.plist /\ win = I0.win /\ winOverlap = I0.winOverlap
+  /\ evs = I0.evs /\ prov = I0.prov /\ mon = I0.mon
 
 Go(x, l) == pc' = [pc EXCEPT ![x] = l]
 Lock(x) == mu = "none" /\ mu' = x
